@@ -4,14 +4,15 @@
 (* Each state is exported as one run for the fault-injection harness.               *)
 EXTENDS Faults, Json, IOUtils
 
-Probes == ndJsonDeserialize(IOEnv.PROBES)    \* [id, save, stream, allocs, len, produced]
+Probes == ndJsonDeserialize(IOEnv.PROBES)    \* [id, arch, save, stream, allocs, doc, produced, probe]
 
 VARIABLES s, kind, k
 vars == <<s, kind, k>>
 
 KindsOf(p) == IF p.save THEN (IF p.stream THEN {"alloc", "ofailat", "othrowat"} ELSE {"alloc"})
               ELSE (IF p.stream THEN {"alloc", "failat", "throwat"} ELSE {"alloc"})
-PointsOf(p, kd) == IF kd = "alloc" THEN p.allocs ELSE IF kd \in {"failat", "throwat"} THEN p.len ELSE p.produced
+PointsOf(p, kd) == IF kd = "alloc" THEN p.allocs ELSE IF kd \in {"failat", "throwat"} THEN Len(p.doc) ELSE p.produced
+RejectOf(p, kd) == IF kd \in {"failat", "throwat"} THEN MustRejectBelow(p.arch, p.doc) ELSE 0
 
 Init == /\ s \in 1..Len(Probes) /\ kind \in KindsOf(Probes[s]) /\ k = 0
 Next == /\ k < PointsOf(Probes[s], kind)
@@ -19,5 +20,5 @@ Next == /\ k < PointsOf(Probes[s], kind)
         /\ UNCHANGED <<s, kind>>
 Spec == Init /\ [][Next]_vars
 
-Export == PrintT(<<"GEN", ToJson([s |-> s, kind |-> kind, k |-> k, n |-> PointsOf(Probes[s], kind)])>>)
+Export == PrintT(<<"GEN", ToJson([s |-> s, kind |-> kind, k |-> k, n |-> PointsOf(Probes[s], kind), reject |-> RejectOf(Probes[s], kind)])>>)
 =============================================================================
